@@ -41,18 +41,18 @@ class ImmutableKnotVector(tuple):
             if not vector[i] <= vector[i + 1]:
                 return False
         if degree is None:
-            degree = 0
-            while vector[degree] == vector[degree + 1]:
-                degree += 1
+            degree = vector.count(vector[0]) - 1
         npts = lenght - degree - 1
-        if not degree < npts:
+        if not 0 <= degree < npts:
             return False
         knots = ImmutableKnotVector.__get_unique(vector[degree : npts + 1])
         for knot in knots:
             mult = vector.count(knot)
             if mult > degree + 1:
                 return False
-        if vector.count(vector[degree]) != vector.count(vector[npts]):
+        if vector.count(vector[0]) != degree + 1:
+            return False
+        if vector.count(vector[-1]) != degree + 1:
             return False
         return True
 
@@ -66,9 +66,7 @@ class ImmutableKnotVector(tuple):
         if not cls.__is_valid(knotvector, degree):
             raise ValueError("Invalid knot vector")
         if degree is None:
-            degree = 0
-            while knotvector[degree] == knotvector[degree + 1]:
-                degree += 1
+            degree = knotvector.count(knotvector[0]) - 1
         instance = super(ImmutableKnotVector, cls).__new__(cls, tuple(knotvector))
         instance._ImmutableKnotVector__degree = degree
         instance._ImmutableKnotVector__npts = len(knotvector) - degree - 1
